@@ -48,3 +48,33 @@ Definition flags_of (t : bool * bool * bool * bool * bool * bool) : flags :=
 Definition run_markers (en rd : bool) (ls : list (bool * bool * bool * bool * bool * bool)) (c : cov_l) :=
   let fs := create en rd (map flags_of ls) in
   (map show_ftype fs, cov_to_l (apply_filters fs (cov_of_l c))).
+
+From Grcov Require Export Model.Pipeline.
+(* trace validation: items 0..n-1 with their parse results (None = rejected by the parser) and faults
+   (0 none, 1 reject, 2 die while parsing, 3 die under the lock); returns what the run of the label list gives *)
+Definition fault_of (n : N) : fault_kind :=
+  match n with 0 => FNone | 1 => FReject | 2 => FDieParse | _ => FDieLocked end.
+Definition mk_cfg (nw cap_ : N) (keep : bool) (items : list (option (list (name * cov_l)) * N)) : cfg :=
+  mkCfg (N.to_nat nw) (N.to_nat cap_) keep
+        (fun i => match items !! N.to_nat i with Some (Some b, _) => Some (results_of_l b) | _ => None end)
+        (fun i => match items !! N.to_nat i with Some (_, f) => fault_of f | None => FNone end).
+Definition show_mst (m : mst) : N * N :=
+  match m with MWaitProd => (0, 0) | MSendStop k => (1, N.of_nat k) | MJoinW j => (2, N.of_nat j) | MExit c => (3, c) end.
+Definition show_wst (w : wst) : N :=
+  match w with WIdle => 0 | WHolding _ => 1 | WParsed _ => 2 | WExited => 3 | WDead => 4 end.
+Definition run_pipeline (nw cap_ : N) (keep : bool) (items : list (option (list (name * cov_l)) * N)) (ls : list label) :=
+  let c := mk_cfg nw cap_ keep items in
+  match run c (init c (map N.of_nat (seq 0 (length items)))) ls with
+  | None => (false, (0, 0), [], [], [], [], [], false)
+  | Some s => (true, show_mst (s_m s), map show_wst (s_w s), s_merged s, s_rejected s, s_lost s,
+               map (fun '(n, cv) => (n, cov_to_l cv)) (map_to_list (s_acc s)),
+               bool_decide (enabled c s = []))
+  end.
+(* first label of the list that is not enabled (for diagnostics) *)
+Fixpoint run_prefix (c : cfg) (s : st) (ls : list label) (k : N) : N :=
+  match ls with
+  | [] => k
+  | l :: ls => match step c s l with Some s' => run_prefix c s' ls (k + 1) | None => k end
+  end.
+Definition run_pipeline_prefix (nw cap_ : N) (keep : bool) (items : list (option (list (name * cov_l)) * N)) (ls : list label) :=
+  let c := mk_cfg nw cap_ keep items in run_prefix c (init c (map N.of_nat (seq 0 (length items)))) ls 0.
